@@ -45,11 +45,18 @@ Definition attr_okb (a : attr) : bool :=
   && forallb (fun c => negb (c =? a_q a) && negb (c =? 0)) (a_val a).
 
 Definition lit_okb (q : Z) (s : list Z) : bool := forallb (fun c => negb (c =? q) && negb (c =? 0)) s.
+Definition plain_inner_b (c : Z) : bool :=
+  negb (c =? 34) && negb (c =? 39) && negb (c =? 93) && negb (c =? 0) && negb (c =? 60).
 Definition dinner_okb (p : dinner) : bool :=
   match p with
-  | DIChar c => negb (c =? 34) && negb (c =? 39) && negb (c =? 93) && negb (c =? 0)
+  | DIChar c => plain_inner_b c
   | DIStr s => lit_okb 34 s
   | DIStrS s => lit_okb 39 s
+  | DILt k => forallb plain_inner_b k
+              && match at_l [33; 45; 45] k with Some false => true | _ => false end
+              && negb (getz k 0 =? 63)
+  | DIComment b => nz_b b && no_occ_b pat_comment_end b
+  | DIPI b => nz_b b && no_occ_b pat_pi_end b
   end.
 Definition dpiece_okb (p : dpiece) : bool :=
   match p with
@@ -107,8 +114,23 @@ Proof.
   - match goal with H : forallb _ (a_val a) = true |- _ => revert H end. apply forallb_Forall. intros x Hx. lia.
 Qed.
 
+Lemma plain_inner_b_sound c : plain_inner_b c = true -> plain_inner c.
+Proof. unfold plain_inner_b, plain_inner. lia. Qed.
+
 Lemma dinner_okb_sound p : dinner_okb p = true -> dinner_ok p.
-Proof. destruct p as [c|s|s]; cbn [dinner_okb dinner_ok]; [lia|apply lit_okb_sound|apply lit_okb_sound]. Qed.
+Proof.
+  destruct p as [c|s|s|k|b|b]; cbn [dinner_okb dinner_ok].
+  - apply plain_inner_b_sound.
+  - apply lit_okb_sound.
+  - apply lit_okb_sound.
+  - intros H. b2p. split; [|split].
+    + match goal with H : forallb plain_inner_b k = true |- _ => revert H end.
+      apply forallb_Forall. apply plain_inner_b_sound.
+    + destruct (at_l [33; 45; 45] k) as [[|]|]; try discriminate. reflexivity.
+    + assumption.
+  - intros H. b2p. split; [apply nz_b_sound; assumption|apply no_occ_b_sound; assumption].
+  - intros H. b2p. split; [apply nz_b_sound; assumption|apply no_occ_b_sound; assumption].
+Qed.
 
 Lemma dpiece_okb_sound p : dpiece_okb p = true -> dpiece_ok p.
 Proof.
@@ -153,8 +175,17 @@ Proof. intros items H. apply xml_wellformed_tokens_proof. apply doc_okb_sound. e
 Example ex_items_okb : doc_okb ex_items = true.
 Proof. vm_compute. reflexivity. Qed.
 
+Example ex_items_ok : doc_ok ex_items.
+Proof. apply doc_okb_sound. exact ex_items_okb. Qed.
+
 Example ex_squote_items_okb : doc_okb ex_squote_items = true /\ doc_okb ex_squote_items2 = true.
 Proof. vm_compute. split; reflexivity. Qed.
+
+Example ex_squote_items_ok : doc_ok ex_squote_items.
+Proof. apply doc_okb_sound. apply ex_squote_items_okb. Qed.
+
+Example ex_squote_items2_ok : doc_ok ex_squote_items2.
+Proof. apply doc_okb_sound. apply ex_squote_items_okb. Qed.
 
 Theorem xml_doctype_single_quote_proof :
   render_doc ex_squote_items = ex_doctype_squote /\
